@@ -301,6 +301,11 @@ void Date::increased_by_days(int num_days)
                 year_++;
                 month_ = 1;
             }
+            if (month_ == 12 && day_ > (31 - (num_days + 1))) {
+                year_++;
+                month_ = 1;
+                day_ = 1;
+            }
         }
     }
     else {
@@ -315,6 +320,11 @@ void Date::increased_by_days(int num_days)
             if (month_ > 12) {
                 year_++;
                 month_ = 1;
+            }
+            if (month_ == 12 && day_ > (31 - num_days)) {
+                year_++;
+                month_ = 1;
+                day_ = 1;
             }
         }
     }
